@@ -468,6 +468,9 @@ def run_threads(ctx, plan):
 
     def fresh(sim, record):
         compiled_mod.Lock = sim.make_lock
+        # every lock the application under test creates while it is built is under simulator
+        # control: a blocked acquirer yields the baton, "everybody blocked" is reported as a deadlock
+        _threading.Lock = sim.make_lock
         try:
             app = build_app(plan, False, record)
             if plan.get('caches_full'):
@@ -482,6 +485,7 @@ def run_threads(ctx, plan):
                                         'body': None})
         finally:
             compiled_mod.Lock = _REAL_LOCK
+            _threading.Lock = _REAL_LOCK
         return app
 
     # solo baselines, each on a fresh identical app and fresh process-wide caches;
@@ -594,6 +598,42 @@ import threading as _threading  # noqa: E402
 _REAL_LOCK = _threading.Lock
 
 
+class LockNeverReleased(RuntimeError):
+    pass
+
+
+class _TaskLock(object):
+    """threading.Lock stand-in for single-threaded (task) runs."""
+
+    def __init__(self):
+        self._held = False
+
+    def acquire(self, blocking=True, timeout=-1):
+        if self._held:
+            if not blocking:
+                return False
+            raise LockNeverReleased('a threading.Lock of the application is held and can never be released '
+                                    '(single thread): a real server would hang here')
+        self._held = True
+        return True
+
+    def release(self):
+        if not self._held:
+            raise RuntimeError('release unlocked lock')
+        self._held = False
+
+    def locked(self):
+        return self._held
+
+    def __enter__(self):
+        self.acquire()
+        return self
+
+    def __exit__(self, *a):
+        self.release()
+        return False
+
+
 # ---------------------------------------------------------------------------
 # ASGI / tasks
 # ---------------------------------------------------------------------------
@@ -648,7 +688,13 @@ def asgi_exchange(ctx, plan, reqs, concurrent, arm_flaky=False):
         env.paused.append(f)
         await f
 
-    app = build_app(plan, True, record, pause)
+    # tasks share one thread: a lock of the application that is still held when somebody else asks
+    # for it can never be released -- report that instead of hanging the simulator
+    _threading.Lock = _TaskLock
+    try:
+        app = build_app(plan, True, record, pause)
+    finally:
+        _threading.Lock = _REAL_LOCK
     if plan.get('caches_full'):
         fill_caches(app)
     Flaky.fail_next = arm_flaky       # armed only after the routes were added (add_route validates converters)
